@@ -57,6 +57,26 @@ def get_is_guarded(ctx):
     return "has(" in txt or "in _registry" in txt
 
 
+def slow_path_skip(ctx, eff, lazy_ok):
+    """Edges out of registry.get that lie behind its `already loaded -> return` guard: when every run-time call of get names a registry
+    that is loaded while the package is imported (lazy_ok), that part of get - and whatever helper it hands the loading to - cannot run
+    at run time.  Callees that the guard itself uses stay reachable."""
+    g = ctx.program.get("schwifty.registry.get")
+    body = [st for st in g.node.body if not (isinstance(st, ast.Expr) and isinstance(st.value, ast.Constant))]
+    guard_callees = set()
+    if body and isinstance(body[0], ast.If):
+        for n in ast.walk(body[0]):
+            if isinstance(n, ast.Call) and isinstance(n.func, (ast.Name, ast.Attribute)):
+                d = ctx.program.resolve_expr(g.module, n.func)
+                if isinstance(d, Func):
+                    guard_callees.add(d.qualname)
+
+    def skip(f, h):
+        return lazy_ok and f.qualname == "schwifty.registry.get" and h.qualname not in guard_callees
+
+    return skip
+
+
 def run(ctx, report):
     prog = ctx.program
     eff = Effects(prog)
@@ -89,8 +109,7 @@ def run(ctx, report):
     if not guarded:
         r_lazy.finding("registry.get:guard", "registry.get no longer returns the cached registry before doing any work", prog.get("schwifty.registry.get").where)
 
-    def skip(f, g):
-        return lazy_ok and f.qualname == "schwifty.registry.get" and g.qualname in ("schwifty.registry.save", "schwifty.registry.parse_v2", "schwifty.registry.merge_dicts")
+    skip = slow_path_skip(ctx, eff, lazy_ok)
 
     runtime = eff.reachable(roots, skip_edge=skip)
     report.analysed = {"functions": len(eff.funcs), "runtime_reachable": len(runtime), "shared_classes": len(shared),
